@@ -32,9 +32,10 @@ def canon_c(out):
         t, k = p[0], p[1]
         if k in ('start', 'exit'): continue
         if k == 'call':
-            res.append('%s call %s %s' % (t, p[2], node(p[3]) if p[2] in ('add', 'del') else p[3])); continue
+            res.append('%s call %s %s' % (t, p[2], node(p[3]) if p[2] in ('add', 'del', 'replace') else p[3])); continue
         if k == 'ret':
             if p[2] in ('add', 'lookup'): res.append('%s ret %s %s' % (t, p[2], node(p[3])))
+            elif p[2] == 'replace': res.append('%s ret replace %s' % (t, p[3]))
             else: res.append('%s ret del %s' % (t, '0' if p[3] == '0' else '2'))
             continue
         if k == 'load': res.append('%s load %s -> %s' % (t, loc(p[2]), val(p[4])))
@@ -55,6 +56,7 @@ def ops_of(prog):
             c = tp[i]
             if c in 'AU': l.append(('add', str(3 + int(tp[i + 1])), c == 'U')); i += 2
             elif c == 'L': l.append(('lookup', (EH[int(tp[i + 1])], EK[int(tp[i + 1])]))); i += 2
+            elif c == 'P': l.append(('replace', None, str(3 + int(tp[i + 1])))); i += 2
             else: l.append(('del',)); i += 1
         out.append(l)
     return out
@@ -64,11 +66,11 @@ def history(prog, cl):
     per = ops_of(prog); idx = [0] * len(per); open_ = {}; out = []
     for i, l in enumerate(cl):
         p = l.split()
-        if len(p) >= 3 and p[1] == 'call' and p[2] in ('add', 'lookup', 'del'):
+        if len(p) >= 3 and p[1] == 'call' and p[2] in ('add', 'lookup', 'del', 'replace'):
             t = int(p[0]); o = per[t][idx[t]]; idx[t] += 1
-            arg = o if o[0] != 'del' else ('del', p[3])
+            arg = ('del', p[3]) if o[0] == 'del' else ('replace', p[3], o[2]) if o[0] == 'replace' else o
             open_[t] = (arg, i)
-        elif len(p) >= 3 and p[1] == 'ret' and p[2] in ('add', 'lookup', 'del') and int(p[0]) in open_:
+        elif len(p) >= 3 and p[1] == 'ret' and p[2] in ('add', 'lookup', 'del', 'replace') and int(p[0]) in open_:
             arg, ci = open_.pop(int(p[0])); out.append((p[0], arg[0], arg, p[3], ci, i))
     for t, (arg, ci) in open_.items(): out.append((str(t), arg[0], arg, None, ci, None))
     return out
@@ -84,6 +86,12 @@ def ms_apply(state, op, arg):
     if op == 'lookup':
         same = [m for m in state if keyof(m) == arg[1]]
         return [(state, m) for m in same] if same else [(state, '0')]
+    if op == 'replace':
+        old, new = arg[1], arg[2]
+        if old == '0': return [(state, '2')]
+        if keyof(old) != keyof(new): return [(state, '3')]
+        if old in state: return [(state - {old} | {new}, '0')]
+        return [(state, '2')]
     if op == 'del':
         n = arg[1]
         if n != '0' and n in state: return [(state - {n}, '0')]
@@ -96,13 +104,13 @@ def oracle(prog, s, cl, raw, unique_keys=True):
     # single owner: per node at most one successful del
     succ = {}
     for x in h:
-        if x[1] == 'del' and x[3] == '0': succ[x[2][1]] = succ.get(x[2][1], 0) + 1
+        if x[1] in ('del', 'replace') and x[3] == '0': succ[x[2][1]] = succ.get(x[2][1], 0) + 1
     for n, c in succ.items():
-        if c > 1: return 'node %s was handed to %d del callers' % (n, c)
+        if c > 1: return 'node %s was handed to %d del / replace callers' % (n, c)
     # final state: count and chain agree with the history when every operation completed
     m = re.search(r'^- final count (\d+)', raw, flags=re.M)
     if m and all(x[5] is not None for x in h):
-        adds = sum(1 for x in h if x[1] == 'add' and x[3] == x[2][1]); dels = sum(1 for x in h if x[1] == 'del' and x[3] == '0')
+        adds = sum(1 for x in h if x[1] == 'add' and x[3] == x[2][1]); dels = sum(1 for x in h if x[1] == 'del' and x[3] == '0')     # a replace removes one and adds one
         if int(m.group(1)) != adds - dels: return 'count_nodes says %s but %d nodes were added and %d removed' % (m.group(1), adds, dels)
     m = re.search(r'^- chain (.*)$', raw, flags=re.M)
     if m and all(x[5] is not None for x in h):
@@ -111,11 +119,11 @@ def oracle(prog, s, cl, raw, unique_keys=True):
         ch = [c.split(':') for c in m.group(1).split()]
         if any(rk(a[0]) > rk(b[0]) for a, b in zip(ch, ch[1:])): return 'final chain is not in split order: ' + m.group(1)
         live = [n for n, f in ch if not n.startswith('b') and int(f) & 1 == 0]
-        present = set(x[2][1] for x in h if x[1] == 'add' and x[3] == x[2][1]) - set(x[2][1] for x in h if x[1] == 'del' and x[3] == '0')
+        present = (set(x[2][1] for x in h if x[1] == 'add' and x[3] == x[2][1]) | set(x[2][2] for x in h if x[1] == 'replace' and x[3] == '0')) - set(x[2][1] for x in h if x[1] in ('del', 'replace') and x[3] == '0')
         if set(live) != present: return 'final chain holds %s but the history leaves %s' % (sorted(live), sorted(present))
         if unique_keys:
             uadd = set(keyof(x[2][1]) for x in h if x[1] == 'add' and x[2][2])
-            padd = set(keyof(x[2][1]) for x in h if x[1] == 'add' and not x[2][2])
+            padd = set(keyof(x[2][1]) for x in h if x[1] == 'add' and not x[2][2]) | set(keyof(x[2][2]) for x in h if x[1] == 'replace' and keyof(x[2][2]) not in uadd)
             for k in uadd - padd:
                 if sum(1 for n in live if keyof(n) == k) > 1: return 'two live nodes with uniquely-added key %s in the final chain' % (k,)
     return None
@@ -129,6 +137,9 @@ def build(ctx):
     return impl, model
 
 def gen(ctx, progs, n, pid):
+    for prog in progs:          # a node may be handed to the table by one operation only
+        used = re.findall(r'[AUP](\d)', prog)
+        assert len(used) == len(set(used)), 'entry used by two insertions in ' + prog
     out = [c for c in corpus(pid) if len(c) == 2]
     for prog in progs[:3 if ctx.quick() else len(progs)]:
         th = [str(i) for i in range(prog.count('/') + 1)]
@@ -143,7 +154,7 @@ def gen(ctx, progs, n, pid):
 TRUSTED = ['Coq 8.16.1 kernel; no axioms (closed under the global context); no native_compute',
            'extraction: ExtrOcamlBasic only; ocaml/lfht_driver.ml (configuration: 2 buckets, 8 entries, order-preserving ranks of the reversed hashes)',
            'harness: verif_hooks.h, sched.c; canonicalisation and oracles in tools/lfht_common.py',
-           'modelled: x86 locked RMW = atomic step (buffers provably always empty); plain initialising store of node->next folded into the preceding step (node private); '
+           'modelled: add, add_unique, lookup, del, replace at pc level; x86 locked RMW = atomic step (buffers provably always empty); plain initialising store of node->next folded into the preceding step (node private); '
            'RCU flavor = harness-provided (abstract); match() = key equality; fixed table size (resize is C09)']
 
 def replay(ctx, rp):
